@@ -77,7 +77,8 @@ func genFECase(seed uint64, i int) feCase {
 	c.Offset = 50 + r.Intn(900)
 	analysis := strings.HasSuffix(c.Binary, "-analysis")
 	kinds := []string{"malformed-go-version", "unknown-failOn", "rules-pattern-without-match", "empty-selection", "empty-selection-by-disable", "unparsable-parameter",
-		"torn-write", "lost-write", "lost-package", "flipped-identifier", "mixed-package-clauses", "none"}
+		"torn-write", "lost-write", "lost-package", "flipped-identifier", "mixed-package-clauses", "none",
+		"torn-write-at-zero", "torn-in-package-clause", "flipped-keyword", "comment-only-file", "torn-test-file"}
 	c.Fault = kinds[(i/len(frontends))%len(kinds)]
 	switch c.Fault {
 	case "malformed-go-version":
@@ -139,6 +140,18 @@ func writeWorkspace(dir string, n int, c *feCase, at int) error {
 				b = strings.Replace(b, fmt.Sprintf("package p%d", i), "package other", 1)
 			case "lost-package":
 				a, b = "", "" // every file gone: importers cannot resolve the package
+			case "torn-write-at-zero":
+				b = "\n" // the write was torn before the first byte: an empty .go file next to a healthy one
+			case "torn-in-package-clause":
+				b = b[:3+c.Offset%5] // "pac", "pack", ... : the package clause itself is cut
+			case "flipped-keyword":
+				b = "packagf" + b[len("package"):] // one flipped bit in the first token
+			case "comment-only-file":
+				b = "// Helper lives elsewhere now.\n/* nothing left */\n"
+			case "torn-test-file":
+				// a third, _test.go file cut in the middle
+				t := fmt.Sprintf("package p%d\n\nimport \"testing\"\n\nfunc TestWork(t *testing.T) {\n\tif Work%d(1, 2, nil) == 0 {\n\t\tt.Fatal()\n\t}\n}\n", i, i)
+				os.WriteFile(filepath.Join(pd, "a_test.go"), []byte(t[:len(t)*c.Offset/1000]), 0o644)
 			}
 		}
 		if a != "" {
